@@ -453,3 +453,52 @@ pub fn colours_legal(s: &Snap) -> Vec<String> {
     }
     v
 }
+
+/// Maintenance alarm (`./check selftest`): destructuring WITHOUT `..` fails to
+/// compile when a field is added to the subject's state types that the state
+/// key / snapshot does not cover yet. Only compiled for the harness's own tests,
+/// so the registered checks keep building.
+#[cfg(test)]
+mod fieldcheck {
+    use memterm::screen::{CharOpts, Cursor, Margins, Savepoint, Screen};
+
+    #[allow(dead_code)]
+    fn screen_fields(s: Screen) {
+        let Screen {
+            savepoints: _,
+            columns: _,
+            lines: _,
+            dirty: _,
+            margins: _,
+            buffer: _,
+            mode: _,
+            title: _,
+            icon_name: _,
+            charset: _,
+            g0_charset: _,
+            g1_charset: _,
+            tabstops: _,
+            cursor: _,
+            saved_columns: _,
+        } = s;
+    }
+    #[allow(dead_code)]
+    fn other_fields(sp: Savepoint, c: Cursor, o: CharOpts, m: Margins) {
+        let Savepoint { cursor: _, g0_charset: _, g1_charset: _, charset: _, origin: _, wrap: _ } = sp;
+        let Cursor { x: _, y: _, attr: _, hidden: _ } = c;
+        let CharOpts { data: _, fg: _, bg: _, bold: _, italics: _, underscore: _, strikethrough: _, reverse: _, blink: _ } = o;
+        let Margins { top: _, bottom: _ } = m;
+    }
+
+    #[test]
+    fn key_distinguishes_representation() {
+        use super::*;
+        use memterm::parser_listener::ParserListener;
+        let a = Screen::new(3, 2);
+        let mut b = Screen::new(3, 2);
+        b.display();
+        assert_ne!(full_key(&a), full_key(&b), "absent vs materialised rows must have different keys");
+        b.dirty = a.dirty.clone();
+        assert_eq!(snap(&a), snap(&b), "but the same observable view");
+    }
+}
